@@ -239,6 +239,17 @@ def text_level(which: int) -> str:
         ("'<<': 1\n", {'<<': 1}),
         ("- &A {x: 1}\n- &B {<<: *A, y: 2}\n- {<<: *B, z: 3}\n- *B\n", [{'x': 1}, {'x': 1, 'y': 2}, {'x': 1, 'y': 2, 'z': 3}, {'x': 1, 'y': 2}]),
     ]
+    if which >= 6:
+        # unhashable keys under the full loader (a tuple holding a list hashes to TypeError)
+        bad = ["? !!python/tuple [[1]]\n: 2\n", "!!set {? !!python/tuple [[1]] }\n", "? [1]\n: 2\n", "? {a: 1}\n: 2\n"]
+        try:
+            yaml.full_load(pick(which - 6, bad))
+        except yaml.constructor.ConstructorError:
+            reach()
+            return 'ok'
+        except Exception as e:
+            return fail(P, 'text ' + exc_sig(e), which=which)
+        return fail(P, 'TEXT unhashable key accepted', which=which)
     text, want = pick(which, docs)
     got = yaml.safe_load(text)
     reach()
@@ -259,5 +270,5 @@ def jobs(tier):
                        and 0 <= j0 <= 3 and 0 <= j1 <= 3 and 0 <= order <= 2],
                       budget=200 if q else 1800, bounds='first top entry kind %d; %d top entries x 16 shapes of M1 x 3 construction orders' % (k, NT)))
     js.append(Job('collections', collections, [lambda tag_i, shape: 0 <= tag_i <= 2 and 0 <= shape <= 7], budget=60, bounds='!!set/!!omap/!!pairs x 8 shapes'))
-    js.append(Job('text', text_level, [lambda which: 0 <= which <= 5], budget=60, bounds='6 concrete documents through safe_load'))
+    js.append(Job('text', text_level, [lambda which: 0 <= which <= 9], budget=60, bounds='10 concrete documents through safe_load / full_load'))
     return js
